@@ -1287,7 +1287,64 @@ type c16Defect struct {
 	State bool                            // built from the current list (never cached)
 }
 
+// c16RetractionVariants: every generic defect of the alphabet that is meaningful for a RETRACTION presentation.
+// A retraction is a listed presentation too: it must satisfy every clause of the statement that applies to it.
+type c16RetractionVariant struct {
+	Label    string
+	NeedsOld bool // only meaningful when the subject has a listed entry
+	Mut      func(w *c16World, o *c16VPOpt, listedID string)
+}
+
+func c16RetractionVariants() []c16RetractionVariant {
+	return []c16RetractionVariant{
+		{Label: "valid too long", Mut: func(w *c16World, o *c16VPOpt, _ string) { o.ExpIn = c16MaxValidity + 60 }},
+		{Label: "valid 365 days", Mut: func(w *c16World, o *c16VPOpt, _ string) { o.ExpIn = 365 * 24 * 3600 }},
+		{Label: "no exp", Mut: func(w *c16World, o *c16VPOpt, _ string) { o.NoExp = true }},
+		{Label: "wrong audience", Mut: func(w *c16World, o *c16VPOpt, _ string) { o.Aud = []string{"other_service"} }},
+		{Label: "no audience", Mut: func(w *c16World, o *c16VPOpt, _ string) { o.NoAud = true }},
+		{Label: "no id", Mut: func(w *c16World, o *c16VPOpt, _ string) { o.NoID = true }},
+		{Label: "json-ld presentation", Mut: func(w *c16World, o *c16VPOpt, _ string) { o.LDP = true }},
+		{Label: "disallowed did method", Mut: func(w *c16World, o *c16VPOpt, _ string) { o.Signer = w.e.keyHolder }},
+		{Label: "bad presentation signature", Mut: func(w *c16World, o *c16VPOpt, _ string) { o.SignKey = w.e.mallory.key }},
+		{Label: "expired presentation", Mut: func(w *c16World, o *c16VPOpt, _ string) { o.NbfIn, o.ExpIn = -7200, -3600 }},
+		{Label: "presentation not yet valid", Mut: func(w *c16World, o *c16VPOpt, _ string) { o.NbfIn = 1800 }},
+		{Label: "own id equals the listed id", NeedsOld: true, Mut: func(w *c16World, o *c16VPOpt, id string) { o.ID = id }},
+	}
+}
+
 func c16Defects() []c16Defect {
+	base := c16BaseDefects()
+	for _, v := range c16RetractionVariants() {
+		v := v
+		// (a) a retraction of the subject's LISTED entry (right signer, right retract_jti) that carries the defect
+		base = append(base, c16Defect{Label: "retraction of the listed entry + " + v.Label, PerS: true, State: true,
+			Build: func(w *c16World, s int) *c16VP {
+				en := w.model[w.e.subjects[s].did]
+				if en == nil {
+					return nil
+				}
+				o := c16VPOpt{Signer: w.e.subjects[s], ExpIn: c16Long, Types: []string{c16RetractType},
+					Extra: map[string]any{"retract_jti": en.VP.Facts.ID}}
+				v.Mut(w, &o, en.VP.Facts.ID)
+				return w.e.buildVP(o)
+			}})
+		if v.NeedsOld {
+			continue
+		}
+		// (b) the same defect on a retraction that names no listed presentation (offered whether or not the subject has an entry)
+		base = append(base, c16Defect{Label: "retraction of an unlisted id + " + v.Label,
+			Build: func(w *c16World, s int) *c16VP {
+				p := w.e.subjects[s]
+				o := c16VPOpt{Signer: p, ExpIn: c16Long, Types: []string{c16RetractType},
+					Extra: map[string]any{"retract_jti": p.did + "#" + w.e.newID()}}
+				v.Mut(w, &o, "")
+				return w.e.buildVP(o)
+			}})
+	}
+	return base
+}
+
+func c16BaseDefects() []c16Defect {
 	good := func(w *c16World, p *c16Party) []string {
 		return []string{w.e.cred(c16CredOpt{Type: "TestCredential", Subject: p})}
 	}
@@ -1549,8 +1606,9 @@ func TestVerifC16BFS(t *testing.T) {
 	r.Rule("explicit-state BFS over event histories {register(s,7h), register(s,1h), retract(s), third-party replay(s), " +
 		"malicious-server inject(s), expire(+2h), poll, server reset, reset+register×k} on a real server Module and a real client " +
 		"Module (two SQLite databases, real verifier, virtual clock); a state = canonical form of both databases + replay candidates; " +
-		"in every new state the defective-registration alphabet (25 kinds; quick tier: at the deepest level only the 9 kinds whose handling " +
-		"reads the list or that are tried per subject, plus 3 representatives) is offered to the server (self-loop transitions), the " +
+		"in every new state the defective-registration alphabet (25 kinds of defective registration / retraction, plus 12 generic defects applied to a retraction " +
+		"of each subject's listed entry and 11 to a retraction of an unlisted id; quick tier: at the deepest level only the kinds whose " +
+		"handling reads the list or that are tried per subject, plus 3 representatives) is offered to the server (self-loop transitions), the " +
 		"client's Search is judged (poll events carry the resolution of the client's map-order nondeterminism, all resolutions enumerated), and a fair suffix of polls must end with Search == server live set. The BFS prefix to the split depth " +
 		"is shared; below it the frontier is dealt over the workers, whose seen-sets are private (state counts are per worker).")
 	r.Assume("go-did parsing, jwx, gorm/SQLite are trusted; did:jwk/did:key resolution is exercised, not modelled")
